@@ -181,6 +181,22 @@ def provenance(F, res):
         res.bad('filter/synthetic-locations', 'the instruction map must receive (src, dst + code offset) exactly for locations '
                 'that are not the default (synthetic) one (default inserted: %s, real inserted: %s, value ok: %s)'
                 % (ins_default, ins_real, val_ok))
+    # ---- every body appended to the code section advances the cursor and gets its range
+    uncounted = None
+    for w in ws:
+        if w.outcome != 'return':
+            continue
+        raws = [e for e in w.trace if e['kind'] == 'call' and e['callee'].endswith('CodeSection::raw')]
+        rngs = [e for e in w.trace if e['kind'] == 'call' and e['callee'].endswith('Vec::push') and 'function_ranges' in show(e['args'][0])]
+        curs = [e for e in w.trace if e['kind'] == 'loop_update' and 'offset' in e['callee']]
+        if raws and (not rngs or not curs):
+            at = [show(k[1])[:70] for k, v in w.assumptions if isinstance(k, tuple) and k and k[0] == 'atom']
+            uncounted = at[-2:]
+    if uncounted is not None:
+        res.bad('provenance/every-body-counted', 'a function body is appended to the code section on a path where it neither advances the '
+                'offset cursor nor gets a function range (when %s): every later function is reported too low' % uncounted)
+    else:
+        res.ok('provenance/every-body-counted', {'rule': 'CodeSection::raw => cursor update and function_ranges push in the same world'})
     # ---- (e) provenance of everything published
     w = max([x for x in ws if x.outcome == 'return'] or ws, key=lambda x: len(x.trace))
     items = []
